@@ -137,6 +137,8 @@ func (g gReq) build(vars map[string]string) drv.Req {
 		r.RawLen = "ten"
 	case "plus1":
 		r.DeclLen = ptr64(int64(len(body) + 1))
+	case "huge":
+		r.DeclLen = ptr64(9223372036854775807)
 	}
 	return r
 }
@@ -235,7 +237,7 @@ func c09Menu() []deviation {
 	add("q:marker", "k", "zzz", "", "d/x")
 	add("q:continuation-token", base64.URLEncoding.EncodeToString([]byte("k")), "!!!", "")
 	add("q:start-after", "k", "zzz")
-	add("q:prefix", "d", "d/", "/", "nomatch", "")
+	add("q:prefix", "d", "d/", "/", "nomatch", "", "lead/", "lead/q", "/lead", "//")
 	add("q:delimiter", "/", "d", "")
 	add("q:key-marker", "k", "a", "zzz", "", "b/c")
 	add("q:version-id-marker", "", "$VID", "$VIDOLD", "bogus")
@@ -249,7 +251,7 @@ func c09Menu() []deviation {
 	add("h:Range", "bytes=0-0", "bytes=5-", "bytes=-1", "bytes=0-9223372036854775807", "bytes=9-1", "bytes=a", "bytes=0-0,1-1", "bytes=99-")
 	add("h:X-Amz-Copy-Source", "nosuch", "/", "b", "/aaa/k?versionId=x", "%zz", "/aaa/k", "/aaa", "aaa/k", "/nosuch/k", "/aaa/%zz", "/aaa/nokey", "/bbb/u", "", "/aaa/k2", "//")
 	add("h:Content-MD5", "XrY7u+Ae7tCTyyK7j1rNww==", "!!!", "", "AAAA")
-	add("len", "missing", "negative", "nonnumeric", "plus1")
+	add("len", "missing", "negative", "nonnumeric", "plus1", "huge")
 	add("h:X-Amz-Content-Sha256", "STREAMING-AWS4-HMAC-SHA256-PAYLOAD", "UNSIGNED-PAYLOAD")
 	add("h:X-Amz-Decoded-Content-Length", "5", "x", "-1", "\x01", "6")
 	add("h:If-None-Match", "$ETAGK", "*", "\"x\"")
@@ -337,6 +339,8 @@ func c09SetupObjects(w *drv.World, vars map[string]string) error {
 		}
 	}
 	vars["ETAGK"] = drv.ETagOf([]byte("content-of-k"))
+	// a key that starts with the delimiter (refused by the fs backends, stored by mem/bolt)
+	w.Do(drv.Req{Method: "PUT", Path: "/aaa//lead", Body: []byte("lead")})
 	return nil
 }
 
